@@ -3,6 +3,8 @@
 (* Retention maintenance of qryn: ctrl/qryn/maintenance/rotate.go          *)
 (*   Rotate = storagePolicyUpdate x 3 ; rotateTables x 5                   *)
 (*   each:  getSetting(key) ; if recorded = desired: skip                  *)
+(*          putSetting(key, "")   \* forget the recorded value (fix for the *)
+(*                                \* revert-after-interrupted-change finding)*)
 (*          for every table of the group: ALTER ... (1 or 2 statements)    *)
 (*          putSetting(key, desired)                                       *)
 (* one action per statement sent to the database.  Groups (kind, tables,   *)
@@ -18,7 +20,10 @@ EXTENDS Integers, Sequences, FiniteSets, TLC
 CONSTANTS
     Groups,      \* Seq of [kind: "policy"|"ttl", key: STRING, tables: Seq(STRING), clamp: "minute"|"day"|"none"]
     Configs,     \* set of [policy: STRING ("" = none), ttl: STRING]
-    MaxFaults, MaxChanges
+    MaxFaults, MaxChanges,
+    InvalidateFirst  \* TRUE: the marker is cleared before the first ALTER of a group (the code since the fix recorded in
+                     \* known_findings.json); FALSE: the old marker stays in place while the tables are altered (mutation:
+                     \* TLC finds the revert-after-interrupted-change history that violates Converged)
 
 Tables == UNION { {g.tables[i] : i \in 1..Len(g.tables)} : g \in {Groups[j] : j \in 1..Len(Groups)} }
 Keys == { Groups[j].key : j \in 1..Len(Groups) }
@@ -28,7 +33,7 @@ VARIABLES
     ttl,        \* [Tables -> value]
     pol,        \* [Tables -> value]
     cfg,        \* current configuration
-    pc,         \* "idle" | "get" | "alterSetting" | "alterTTL" | "alterPolicy" | "put" | "done" | "failed"
+    pc,         \* "idle" | "get" | "inval" | "alterSetting" | "alterTTL" | "alterPolicy" | "put" | "done" | "failed"
     gi, ti,     \* group index, table index
     alters,     \* ALTER statements issued by the current run
     lastDone,   \* configuration of the most recent run if it completed and nothing ran since, else NoCfg
@@ -66,9 +71,16 @@ Get ==
     /\ pc = "get"
     /\ IF (G.kind = "policy" /\ cfg.policy = "") \/ settings[G.key] = Want(cfg, G)
          THEN NextGroup
-         ELSE /\ pc' = (IF G.kind = "policy" THEN "alterPolicy" ELSE "alterSetting")
+         ELSE /\ pc' = (IF InvalidateFirst THEN "inval" ELSE IF G.kind = "policy" THEN "alterPolicy" ELSE "alterSetting")
               /\ ti' = 1 /\ UNCHANGED <<gi, lastDone>>
     /\ UNCHANGED <<settings, ttl, pol, cfg, alters, clean, torn, faults, changes>>
+
+\* putSetting(key, ""): the recorded value is forgotten before the tables are touched
+Invalidate ==
+    /\ pc = "inval"
+    /\ settings' = [settings EXCEPT ![G.key] = ""]
+    /\ pc' = (IF G.kind = "policy" THEN "alterPolicy" ELSE "alterSetting")
+    /\ UNCHANGED <<ttl, pol, cfg, gi, ti, alters, lastDone, clean, torn, faults, changes>>
 
 NextTable(first) ==
     IF ti < Len(G.tables) THEN pc' = first /\ ti' = ti + 1 ELSE pc' = "put" /\ UNCHANGED ti
@@ -105,7 +117,7 @@ Put ==
     /\ torn' = [torn EXCEPT ![gi] = FALSE]
     /\ UNCHANGED <<ttl, pol, cfg, alters, clean, faults, changes>>
 
-Running == pc \in {"get", "alterSetting", "alterTTL", "alterPolicy", "put"}
+Running == pc \in {"get", "inval", "alterSetting", "alterTTL", "alterPolicy", "put"}
 
 \* a statement fails (not executed) or the process dies between two statements
 Fault ==
@@ -119,7 +131,7 @@ ChangeConfig ==
     /\ changes' = changes + 1 /\ pc' = "idle"
     /\ UNCHANGED <<settings, ttl, pol, gi, ti, alters, lastDone, clean, torn, faults>>
 
-Next == Start \/ Get \/ AlterPolicy \/ AlterSetting \/ AlterTTL \/ Put \/ Fault \/ ChangeConfig
+Next == Start \/ Get \/ Invalidate \/ AlterPolicy \/ AlterSetting \/ AlterTTL \/ Put \/ Fault \/ ChangeConfig
 Spec == Init /\ [][Next]_vars
 
 -----------------------------------------------------------------------------
